@@ -649,10 +649,12 @@ class Report:
         self.say("SUMMARY property=%s tier=%s obligations=%d discharged=%d (trivial %d) inconclusive=%d violations=%d known=%d harness_errors=%d wall=%.1fs solver=%.1fs"
                  % (self.prop, self.tier, self.obligations, self.discharged, self.trivial, len(self.inconclusive),
                     len(seen_paths), len(printed), len(self.harness_errors), wall, self.solver_s))
+        if self.violations:
+            # replayed violations take precedence: a change that breaks the property often also breaks the
+            # preconditions of the contract stubs (reported above as harness errors of the same run)
+            return EXIT_VIOLATION
         if self.harness_errors:
             return EXIT_HARNESS
-        if self.violations:
-            return EXIT_VIOLATION
         return EXIT_OK
 
 
